@@ -36,7 +36,8 @@ def generate(rng, prop, tier):
     for _ in range(100):
         label = rng.choice(B.PERSISTENT)
         kind, arg = rng.choice(M.KEYMAPS)
-        fn = rng.weighted([(2, 'f1'), (4, 'f2'), (2, 'f3'), (3, 'f4'), (4, 'f5'), (4, 'f6')])
+        fn = rng.weighted([(2, 'f1'), (4, 'f2'), (2, 'f3'), (3, 'f4'), (4, 'f5'), (4, 'f6'), (1, 'f7'), (1, 'f8'),
+                           (4, 'f9')])
         km = {'kind': kind, 'arg': arg, 'flat': rng.chance(0.5), 'typed': rng.chance(0.25),
               'sentinel': rng.chance(0.3)}
         if kind == 'raw':
@@ -70,7 +71,16 @@ def generate(rng, prop, tier):
                                    'junk_objects': rng.choice([0, 0, 50, 500]),
                                    'subdir': rng.chance(0.3),
                                    'other_first': [rng.choice(POOL_HASHABLE[:10]) for _ in range(rng.randint(0, 3))]}})
+    # ignore specifications: the names _keygen substitutes for ignored arguments must not make the key depend
+    # on the session (iteration order of a set of names is hash-seed dependent)
+    ignore = None
+    if rng.chance(0.35) and not (kind == 'pickle' and arg == 'json') and not (kind == 'raw' and label in ('file-src', 'dir-src')):
+        ignore = {'f2': [['y'], ['x', 'y']], 'f7': [['y'], ['x', 'y']], 'f6': [['x', 'y'], ['y', '*'], ['**', 'x', 'y']],
+                  'f9': [['x', 'y'], ['y', 'z', 'x'], ['z', 'y'], [0, 1]], 'f3': [['*'], ['x', '*']],
+                  'f5': [['**'], ['x', '**']], 'f4': [['k'], ['x', 'k']], 'f8': [['k', 'x']]}.get(fn)
+        ignore = rng.choice(ignore) if ignore else None
     return {'engine': 'sessions', 'prop': prop, 'backend': B.config(label, 'k0'), 'keymap': km, 'fn': fn,
+            'ignore': ignore,
             'module': rng.choice(['std', 'safe']), 'algo': rng.choice(['inf', 'lru']),
             'ops': calls, 'sessions': sessions}
 
@@ -98,6 +108,7 @@ def execute(case, prop, ctx):
         noise['cwd'] = os.path.join(root, 'sub') if noise.pop('subdir', False) else root
         job = {'root': root, 'backend': case['backend'], 'keymap': case['keymap'], 'fn': case['fn'],
                'module': case['module'], 'algo': case['algo'], 'calls': calls, 'noise': noise,
+               'ignore': case.get('ignore'),
                'klepto_root': os.environ.get('VERIF_KLEPTO_ROOT')}
         env = dict(os.environ)
         env['PYTHONHASHSEED'] = str(sess['hashseed'])
@@ -184,6 +195,10 @@ def simplify(case):
         c = _copy.deepcopy(case)
         c['module'] = 'std'
         yield c
+    if case.get('ignore'):
+        c = _copy.deepcopy(case)
+        c['ignore'] = None
+        yield c
     if case['algo'] != 'inf':
         c = _copy.deepcopy(case)
         c['algo'] = 'inf'
@@ -199,8 +214,8 @@ def simplify(case):
 def signature(case, viol, prop):
     km = case['keymap']
     kind = km['kind'] + ('' if km['kind'] != 'pickle' else ':%s' % (km['arg'] or 'repr'))
-    return '%s|%s|%s%s|%s' % (prop, viol['class'], kind, '' if km['flat'] else '-nonflat',
-                              viol.get('trigger', '-'))
+    return '%s|%s|%s%s|%s%s' % (prop, viol['class'], kind, '' if km['flat'] else '-nonflat',
+                                viol.get('trigger', '-'), '|ignore' if case.get('ignore') else '')
 
 
 def evidence_info(prop):
